@@ -538,6 +538,27 @@ theorem C19_rewrite_form_irrelevant (rules : List Rule) (scheme auth pathq : Lis
   · rw [rewriteReq, C19_rewrite_abs_form scheme auth pathq hs h0 hc ha (Or.inr (Or.inl hp)), rewrite_eq]
   · rw [rewriteReq, C19_rewrite_origin_form pathq hp, rewrite_eq]
 
+/-- **C19_rewrite_origin_never_cut** — a request target that starts with `/` is matched as it is,
+    WHATEVER follows: `://`, `//`, `@`, a second `?`, a whole URL as query value or as the rest of
+    the path are ordinary bytes of an origin-form target (round 6: the look-alike class).  So the
+    upstream sees `rewrite rules target`, the round-1 function the first-match / order theorems
+    are about, and the rule is applied once however many attempts the request needs
+    (`runSteps` rewrites outside `loopG`). -/
+theorem C19_rewrite_origin_never_cut (rules : List Rule) (rest : List Char) :
+    matchInput ('/' :: rest) = '/' :: rest ∧
+    rewriteReq rules ('/' :: rest) ('/' :: rest) = rewrite rules ('/' :: rest) := by
+  have h := C19_rewrite_origin_form ('/' :: rest) rfl
+  exact ⟨h, by rw [rewriteReq, h, rewrite_eq]⟩
+
+-- the inputs of seeded change 6/2: a URL in the query / in the path of an origin-form target
+example : rewriteReq [⟨"^/api/*".toList, "/$1".toList⟩] "/api/go?to=http://example.com/landing".toList
+    "/api/go?to=http://example.com/landing".toList = "/go?to=http://example.com/landing".toList := by decide
+example : rewriteReq [⟨"^/y/*".toList, "/never/$1".toList⟩] "/proxy/http://x/y/z".toList
+    "/proxy/http://x/y/z".toList = "/proxy/http://x/y/z".toList := by decide
+-- … and of 6/1: a rule whose result matches it again is applied once
+example : rewriteReq [⟨"/api/*".toList, "/$1".toList⟩] "/api/api/users".toList "/api/api/users".toList
+    = "/api/users".toList := by decide
+
 example : rewriteReq [⟨"^/api/*".toList, "/v2/$1".toList⟩] "HTTP://u:p@ex.test:80/api/x?q=1".toList
     "/api/x?q=1".toList = "/v2/x?q=1".toList := by decide
 
